@@ -55,9 +55,9 @@ def chunks(tier, seed):
            {"kind": "impulse_lists", "key": "imp0", "shard": 0, "of": 2},
            {"kind": "impulse_lists", "key": "imp1", "shard": 1, "of": 2}]
     for k in range(10):
-        out.append({"kind": "lists", "key": "lst%d" % k, "n": 500 if q else 12000})
+        out.append({"kind": "lists", "key": "lst%d" % k, "n": 800 if q else 12000})
     for k in range(16):
-        out.append({"kind": "kernels", "key": "ker%d" % k, "shard": k, "of": 16, "reps": 1 if q else 12,
+        out.append({"kind": "kernels", "key": "ker%d" % k, "shard": k, "of": 16, "reps": 2 if q else 12,
                     "nrandom": 30 if q else 1500})
     for k in range(2):
         out.append({"kind": "smooth", "key": "smo%d" % k, "n": 60 if q else 1500})
@@ -443,16 +443,13 @@ def run_case(case, ctx):
         w = kspec["weights"]
         cls.add("symmetric_list" if w == w[::-1] else "asymmetric_list")
         cls.add("list_len_%d" % len(w))
-        nz = len(w)
     elif "int" in kspec:
         cls.add("int_kernel")
-        nz = kspec["int"]
     else:
         cls.add("kernel_" + kspec["type"])
         if "width" in kspec and kspec["width"] in WIDTHS:
             cls.add("width_%s" % kspec["width"])
         cls.add("boundary_filtered" if kspec.get("boundary") else "boundary_copied")
-        nz = None
     if "weights" in kspec or "int" in kspec:
         cls.add("boundary_copied")
     sig = ("filter", _kernel_sig(kspec), via,
@@ -495,8 +492,7 @@ def run_case(case, ctx):
             continue
         if len(k) == n:
             cls.add("len_eq_window")
-        if nz is None or True:
-            nzw = sum(1 for v in k if v != 0)
+        nzw = sum(1 for v in k if v != 0)
         bad_ood = False
         for nm in sorted(sigs):
             r = _judge(nm, sigs[nm], out.get(nm, []), k, boundary, ctx, cls)
